@@ -82,6 +82,12 @@ class World:
             self._ar = _ar
             self.A = _ar.BDD(levels_arg) if levels_arg else _ar.BDD()
             self.b = self.A._bdd
+            # (a manager that dies with references left runs
+            # `inspect.stack()` in `__del__`, which keeps frames - and the
+            # handles in their locals - of whatever history is running
+            # then alive: the implicit check is switched off, the
+            # explicit one is `shutdown()`)
+            self.b.__class__ = _mk_bdd_class()
             # the wrapped manager's shutdown check is exercised
             # explicitly by `shutdown()`; silence the implicit one
             self.api = self.A
